@@ -838,7 +838,13 @@ func WithContext(context Context) ParseOption {
 }
 
 func (p *parser) Parse(reader text.Reader, opts ...ParseOption) ast.Node {
+	if verifOn {
+		verifEmit("ParseEnter", p, reader)
+	}
 	p.initSync.Do(func() {
+		if verifOn {
+			verifEmit("InitEnter", p, reader)
+		}
 		p.config.BlockParsers.Sort()
 		for _, v := range p.config.BlockParsers {
 			p.addBlockParser(v, p.config.Options)
@@ -849,6 +855,9 @@ func (p *parser) Parse(reader text.Reader, opts ...ParseOption) ast.Node {
 			}
 		}
 
+		if verifOn {
+			verifEmit("InitStep", p, reader)
+		}
 		p.config.InlineParsers.Sort()
 		for _, v := range p.config.InlineParsers {
 			p.addInlineParser(v, p.config.Options)
@@ -863,7 +872,13 @@ func (p *parser) Parse(reader text.Reader, opts ...ParseOption) ast.Node {
 		}
 		p.escapedSpace = p.config.EscapedSpace
 		p.config = nil
+		if verifOn {
+			verifEmit("InitDone", p, reader)
+		}
 	})
+	if verifOn {
+		verifEmit("TablesRead", p, reader)
+	}
 	c := &ParseConfig{}
 	for _, opt := range opts {
 		opt(c)
@@ -884,6 +899,9 @@ func (p *parser) Parse(reader text.Reader, opts ...ParseOption) ast.Node {
 	}
 
 	// root.Dump(reader.Source(), 0)
+	if verifOn {
+		verifEmit("ParseReturn", p, reader, root, pc)
+	}
 	return root
 }
 
@@ -966,7 +984,14 @@ retry:
 		}
 		lastBlock = pc.LastOpenedBlock()
 		last := lastBlock.Node
+		var verifLine int
+		if verifOn {
+			verifLine, _ = reader.Position()
+		}
 		node, state := bp.Open(parent, reader, pc)
+		if verifOn {
+			verifEmit("Open", reader, bp, node, verifLine)
+		}
 		if node != nil {
 			// Parser requires last node to be a paragraph.
 			// With table extension:
@@ -1055,6 +1080,9 @@ func (p *parser) parseBlocks(parent ast.Node, reader text.Reader, pc Context) {
 	for { // process blocks separated by blank lines
 		_, lines, ok := reader.SkipBlankLines()
 		if !ok {
+			if verifOn {
+				verifEmit("EndOfInput", reader, pc.OpenedBlocks())
+			}
 			return
 		}
 		lineNum, _ := reader.Position()
@@ -1068,6 +1096,9 @@ func (p *parser) parseBlocks(parent ast.Node, reader text.Reader, pc Context) {
 		isBlank = isBlankLine(lineNum-1, 0, blankLines)
 		// first, we try to open blocks
 		if p.openBlocks(parent, isBlank, reader, pc) != newBlocksOpened {
+			if verifOn {
+				verifEmit("EndOfInput", reader, pc.OpenedBlocks())
+			}
 			return
 		}
 		reader.AdvanceLine()
@@ -1082,6 +1113,9 @@ func (p *parser) parseBlocks(parent ast.Node, reader text.Reader, pc Context) {
 				be := openedBlocks[i]
 				line, _ := reader.PeekLine()
 				if line == nil {
+					if verifOn {
+						verifEmit("EndOfInput", reader, openedBlocks)
+					}
 					p.closeBlocks(lastIndex, 0, reader, pc)
 					reader.AdvanceLine()
 					return
@@ -1092,6 +1126,9 @@ func (p *parser) parseBlocks(parent ast.Node, reader text.Reader, pc Context) {
 				// So we do not process paragraphs here.
 				if !ast.IsParagraph(be.Node) {
 					state := be.Parser.Continue(be.Node, reader, pc)
+					if verifOn {
+						verifEmit("Continue", reader, be.Parser, be.Node, lineNum, int(state))
+					}
 					if state&Continue != 0 {
 						// When current node is a container block and has no children,
 						// we try to open new child nodes
@@ -1214,6 +1251,9 @@ func (p *parser) parseBlock(block text.BlockReader, parent ast.Node, pc Context)
 					var inlineNode ast.Node
 					for _, ip := range ips {
 						inlineNode = ip.Parse(parent, block, pc)
+						if verifOn {
+							verifEmit("InlineTry", block, ip, inlineNode, savedLine, savedPosition)
+						}
 						if inlineNode != nil {
 							break
 						}
